@@ -199,8 +199,9 @@ func (r *Raft) takeSnapshot() (string, error) {
 		return "", fmt.Errorf("failed to close snapshot: %v", err)
 	}
 
-	// Update the last stable snapshot info.
-	r.setLastSnapshot(snapReq.index, snapReq.term)
+	// Update the last stable snapshot info, unless a newer snapshot was
+	// installed or restored while this one was being written.
+	r.setLastSnapshotIfNewer(snapReq.index, snapReq.term)
 
 	// Compact the logs.
 	if err := r.compactLogs(snapReq.index); err != nil {
